@@ -530,6 +530,7 @@ pub fn c02(ctx: &mut Ctx) {
         history_interference(ctx);
         concurrency_probe(ctx, true, false);
         lib_made_records(ctx);
+        volume_stress(ctx);
     }
     wdec(ctx, DecPlan {
         fixed_bases: if q { 96 } else { 200 },
@@ -1102,6 +1103,62 @@ pub fn key_api_stress(ctx: &mut Ctx, secs_per_kind: f64) {
         go::<EdK>(ctx, Scheme::Ed, secs_per_kind);
         go::<CombK>(ctx, Scheme::Secp, secs_per_kind);
         go::<CombK>(ctx, Scheme::Ed, secs_per_kind);
+    }
+}
+
+/// Volume on ONE thread: 2^16 + 500 consecutive rejected inputs and as many accepted ones through every entry point
+/// and key type (a counter of 16 bits anywhere behind them overflows; a debug build then panics, a release build
+/// wraps), after which a valid record must still be accepted and an invalid one refused with an error value.
+pub fn volume_stress(ctx: &mut Ctx) {
+    if cfg!(miri) || (ctx.scale >= 1.0 && !ctx.mine(9)) {
+        // (release shards: one of them; partial layers — dev, A, D, sanitizers — every shard they run)
+        return;
+    }
+    const N: usize = 65_536 + 500;
+    let toy = RefKey::new(Scheme::Toy, crate::keys::secret_from(Scheme::Toy, 0x701));
+    let mut ok_rec = Rec::minimal(toy, 9);
+    ok_rec.map.insert(b"udp".to_vec(), Item::S(vec![0x76, 0x5f]));
+    let good = ok_rec.bytes();
+    let good_text = format!("enr:{}", crate::refimpl::b64::encode(&good));
+    let mut bad = good.clone();
+    let n = bad.len();
+    bad[n - 1] ^= 1;
+    let good_doc = serde_json::to_string(&good_text).unwrap();
+    let bad_text = format!("enr:{}", crate::refimpl::b64::encode(&bad));
+    let bad_doc = serde_json::to_string(&bad_text).unwrap();
+    for kt in dec::kts() {
+        let accepts_good = matches!(crate::refimpl::decode::ref_decode(&good, kt), crate::refimpl::decode::RefOut::Accept(_));
+        // rejected volume (three cheap shapes), accepted volume, then both once more in full
+        let runs: [(&str, &[u8], &str, &str, bool); 3] = [
+            ("rejected-forged", &bad, &bad_text, &bad_doc, false),
+            ("rejected-tiny", &[0xc0], "enr:!", "\"enr:-\"", false),
+            ("accepted", &good, &good_text, &good_doc, accepts_good),
+        ];
+        for (what, buf, text, doc, want) in runs {
+            ctx.add("evaluations", 3 * N as u64);
+            ctx.add("volume-stress-calls", 3 * N as u64);
+            let replay = || json!({"kind": "note", "what": "volume-stress", "kt": kt.name(), "run": what, "calls": N});
+            let complain = |ctx: &mut Ctx, i: usize, msg: String, is_panic: bool| {
+                if is_panic {
+                    ctx.violate("C03", "panic", &format!("volume/{what}/{}", crate::util::panic_sig(&msg)), || format!("{}: call number {i} of a run of {N} {what} inputs on one thread: {msg}", kt.name()), replay);
+                }
+                for prop in ["C02", "C13", "C12"] {
+                    ctx.violate(prop, "verdict-depends-on-what-was-decoded-before", &format!("volume/{what}/{}", kt.name()), || format!("{}: call number {i} of a run of {N} {what} inputs on one thread: {msg}", kt.name()), replay);
+                }
+            };
+            match dec::bulk_kt(kt, N, buf, text, doc) {
+                Err((i, p)) => complain(ctx, i, p, true),
+                Ok(acc) => {
+                    let expect = if want { N } else { 0 };
+                    if acc != [expect; 3] {
+                        complain(ctx, 0, format!("accepted (decode, parse, json) = {acc:?} of {N}, expected {expect} each"), false);
+                    }
+                }
+            }
+        }
+        // and afterwards the full monitors once
+        judge_input(ctx, "valid", &good, JudgeOpts { text: true });
+        judge_input(ctx, "bit-flip", &bad, JudgeOpts { text: true });
     }
 }
 
